@@ -249,7 +249,7 @@ class CallGraph:
 
   def _add(self, src: str, dst: str, kind: str):
     d = self.edges.setdefault(src, {})
-    order = {'exact': 0, 'nested': 0, 'ref': 1, 'approx': 2}
+    order = {'exact': 0, 'nested': 0, 'ref': 1, 'proto': 2, 'approx': 3}
     if dst not in d or order[kind] < order[d[dst]]:
       d[dst] = kind
 
@@ -327,6 +327,44 @@ class CallGraph:
           self.unresolved += 1
         for c in callees:
           self._add(owner_q, c, 'exact' if exact else 'approx')
+    # protocol edges into Buildable's dunder methods
+    B = 'fiddle._src.config.Buildable'
+    if B in p.classes:
+      def bmeth(name):
+        m = p.find_method(B, name)
+        return m.qualname if m else None
+
+      def buildable_typed(e):
+        t = self.types.type_of(e, scope)
+        if t and t in p.classes:
+          return B in p.mro(t)
+        return None
+
+      for n in nodes:
+        if isinstance(n, ast.Call) and isinstance(
+            n.func, ast.Name) and n.func.id in (
+                'setattr', 'delattr', 'getattr') and n.args:
+          bt = buildable_typed(n.args[0])
+          if bt is not False:
+            m = bmeth(f'__{n.func.id}__')
+            if m:
+              self._add(owner_q, m, 'exact' if bt else 'proto')
+        tgts = []
+        if isinstance(n, ast.Assign):
+          tgts = [(t, 'set') for t in n.targets]
+        elif isinstance(n, ast.AugAssign):
+          tgts = [(n.target, 'set')]
+        elif isinstance(n, ast.Delete):
+          tgts = [(t, 'del') for t in n.targets]
+        for t, how in tgts:
+          if isinstance(t, ast.Attribute) and buildable_typed(t.value):
+            m = bmeth('__setattr__' if how == 'set' else '__delattr__')
+            if m and not (t.attr.startswith('__') and t.attr.endswith('__')):
+              self._add(owner_q, m, 'exact')
+          elif isinstance(t, ast.Subscript) and buildable_typed(t.value):
+            m = bmeth('__setitem__' if how == 'set' else '__delitem__')
+            if m:
+              self._add(owner_q, m, 'exact')
     for n in nodes:
       if isinstance(n, (ast.Name, ast.Attribute)) and isinstance(
           getattr(n, 'ctx', None), ast.Load) and id(n) not in call_funcs:
@@ -365,7 +403,7 @@ class CallGraph:
     for lam in m.lambdas:
       self._add(q, lam.qualname, 'nested')
 
-  def reachable(self, roots, kinds=('exact', 'approx', 'ref', 'nested'),
+  def reachable(self, roots, kinds=('exact', 'approx', 'ref', 'nested', 'proto'),
                 stop=None) -> Dict[str, Optional[str]]:
     """BFS; returns {qualname: predecessor} (roots map to None)."""
     pred: Dict[str, Optional[str]] = {}
